@@ -581,25 +581,28 @@ def check_sims(ctx, exe, runner):
                                     combo, igrf + 1, isimu, f, float(v), float(lo), float(hi)), {'case': sx_str(cA), 'node': [x, y]}); ctx.found_input = True
 
 def check_degenerate(ctx, exe, runner):
-    """C13_degenerate_seed / C13_uniform_range_refuted replayed on impl through the public API"""
-    cases = [[0, P, 10], [0, 2 * P, 10], [0, 55380756, 10]]
+    """regression for the repaired step (state 0 replaced by 1): seeds whose first raw state is 0 - multiples of the modulus
+    and, through the 32-bit wrap of 105*seed, others such as 55380756 - used to freeze the generator at 0 (C13_prefix_step_froze)"""
+    cases = [[0, P, 1000], [0, 2 * P, 1000], [0, 55380756, 1000], [0, 75380915, 1000]]
     cf = write_cases(ctx, 'degen', cases); rc, impl = run_impl(ctx, exe, cf); model = model_run(ctx, runner, 'degen', cases)
     sim = sim_case(dict(sim=0, nbsimu=1, nbtuba=10, grid=grid_of(4, 4), model=mdl(0, 3)), 55380756, [-3])
     cf2 = write_cases(ctx, 'degen2', [sim]); rc, impl2 = run_impl(ctx, exe, cf2)
+    if not impl2: effect = 'crashes (no answer from the harness)'
+    elif impl2[0][0] != 0: effect = 'returns an error'
+    elif any(v == [] for col in impl2[0][2] for v in col): effect = 'writes undefined / non finite values'
+    else: effect = None
     for i, c in enumerate(cases):
-        ctx.count('degenerate:%d' % c[1])
+        ctx.count('degenerate:%d' % c[1]); ctx.dist('lcg_seed_first_raw_state_zero')
         ii = impl[i] if i < len(impl) else None
         if ii is None: crash(ctx, 'law_uniform', c); continue
-        if ii[:4] != model[i][:4]:
-            ctx.violation('model-drift:law_uniform:degenerate', 'impl and model differ on seed %d' % c[1], {'case': sx_str(c), 'impl': ii, 'model': model[i]}, found_input=False); continue
-        if ii[2] != 1:
-            if not impl2: effect = 'crashes (no answer from the harness: segmentation fault)'
-            elif impl2[0][0] != 0: effect = 'returns an error'
-            elif any(v == [] for col in impl2[0][2] for v in col): effect = 'writes undefined / non finite values'
-            else: effect = 'returns a degenerate realisation'
-            ctx.violation('law_uniform:degenerate-seed', 'law_set_random_seed(%d) (%s): every law_uniform() returns 0 (generator frozen), law_gaussian() = inf; '
-                          'simtub(seed=55380756, spherical model) %s' % (c[1], 'multiple of the modulus' if c[1] % P == 0 else 'NOT a multiple of the modulus: 32-bit wrap of 105*seed', effect),
-                          {'case': sx_str(c), 'impl': ii, 'simtub_case': sx_str(sim)}); ctx.found_input = True
+        if ii[2] != 1 or ii[4] != 1:
+            ctx.violation('law_uniform:degenerate-seed', 'law_set_random_seed(%d) (%s): draws of law_uniform() leave ]0,1[ (generator frozen at 0: law_gaussian() = inf)%s' % (
+                c[1], 'multiple of the modulus' if c[1] % P == 0 else 'NOT a multiple of the modulus: 32-bit wrap of 105*seed',
+                '; simtub(seed=55380756, spherical model) ' + effect if effect else ''), {'case': sx_str(c), 'impl': ii, 'model': model[i], 'simtub_case': sx_str(sim)}); ctx.found_input = True
+        elif ii[:4] != model[i][:4]:
+            ctx.violation('model-drift:law_uniform:degenerate', 'impl and model differ on seed %d (every draw of impl is in ]0,1[)' % c[1], {'case': sx_str(c), 'impl': ii, 'model': model[i]}, found_input=False)
+    if effect and not any(v[0] == 'law_uniform:degenerate-seed' for v in ctx.violations):
+        ctx.violation('simtub:seed-55380756', 'simtub(seed=55380756, spherical model) ' + effect, {'case': sx_str(sim)}); ctx.found_input = True
 
 def load_corpus(ctx):
     p = os.path.join(VERIF, 'corpus', ctx.pid + '.sx')
@@ -644,6 +647,7 @@ def run(ctx):
                        '(other seed). distinct = distinct case text; non-trivial = not a tie (model margin < 1e-9 on a decision whose outcome differs, query on a threshold)')
     if not proofs_ok: proof_break_violation(ctx, ctx.found_input)
     ctx.assumptions = [
+        'law_uniform as repaired (state 0 replaced by 1) and law_gaussian_between_bounds as repaired (undefined bound kept 20 beyond the defined one) are what is modelled; the former witnesses are regression cases',
         'int*int overflow in "Random_factor * Random_value" wraps modulo 2^32 (two\'s complement; formally undefined behaviour in C++): modelled as wrap_int, compared bit-exactly on every run',
         'the std::mt19937 generator (law_set_old_style(false)) is a black box: only "state is a function of the seed" is modelled; it is not the default',
         'reals: the bounded-draw theorems are stated over Coq\'s R (classical axioms of the standard library, see Print Assumptions); the executable instance uses 120-bit rational '
